@@ -34,7 +34,17 @@ Init ==
 Next == UNCHANGED gvars
 Spec == Init /\ [][Next]_gvars
 
+(* the smallest lattice on which MoreSpecific is not transitive:            *)
+(* 1; 2:1; 3:2; 4:1; 5:{3,4} -- every definition set of a (1,1) method      *)
+D2Edges == {<<2, 1>>, <<3, 2>>, <<4, 1>>, <<5, 3>>, <<5, 4>>}
+InitD2 == /\ edges = D2Edges /\ mvp = [i \in 1..AR |-> 1]
+          /\ defs \in UpTo(AcceptableDefs(edges, mvp), MAXD)
+SpecD2 == InitD2 /\ [][Next]_gvars
 DefRecs == LET s == SetToSeq(defs) IN {[d |-> i - 1, vp |-> s[i]] : i \in 1..Len(s)}
+
+NotTransitiveHere ==   \* TLC exhibits the witness when asked to check this (GenRegD2nt.cfg)
+    LET anc == AncF(edges) D == DefRecs IN
+    \A a, b, c \in D : MoreSpecific(anc, a, b) /\ MoreSpecific(anc, b, c) => MoreSpecific(anc, a, c)
 
 OracleTheorems ==
     LET anc == AncF(edges) D == DefRecs IN
